@@ -1,5 +1,6 @@
 """C04 — what is set through the API is what a parser of the wire bytes gets back."""
 import os, re
+import struct
 import common as C
 import pktcommon as PC
 import pktgen as G
@@ -33,7 +34,7 @@ def norm_type(t):
 OPT_POOLS = {
     'TCP': ([2, 3, 4, 8, 30, 254], [0, 1, 2, 4, 8, 10], {0, 1}),
     'IP': ([7, 0x87, 0x44, 0x83, 0x94, 0x07 | 0x60], [0, 1, 2, 3, 6, 10], {0, 1}),
-    'DHCP': ([1, 3, 6, 12, 51, 53, 60, 61, 250], [0, 1, 4, 9, 253, 254, 255], {0, 255}),
+    'DHCP': ([1, 3, 6, 12, 51, 53, 60, 61, 250, 0, 255], [0, 1, 4, 9, 253, 254, 255], {0, 255}),
     'DHCPv6': ([1, 2, 6, 8, 16, 100], [0, 1, 2, 8, 300], set()),
     'ICMPv6': ([1, 2, 3, 5, 14, 25, 100], [6, 14, 22], set()),
     'Dot11Beacon': ([0, 1, 3, 5, 7, 16, 48, 221], [0, 1, 8, 9, 253, 254, 255], set()),
@@ -136,6 +137,66 @@ def judge(lines, lh, stack):
     return r or []
 
 
+def option_histories(rng, count):
+    """add / remove-first / search-first option histories against a shadow list; some are serialized in the middle and then
+    edited again (also by replacing an option with another of the same encoded size) before the final serialize + re-parse.
+    -> (scripts, meta: sid -> (class, index of the first step line, steps, pad codes))"""
+    hscripts, hmeta = [], {}
+    for i in range(count):
+        cls = rng.choice(sorted(OPT_POOLS))
+        codes, lens, pad = OPT_POOLS[cls]
+        lines = ['new ' + cls] + PREP.get(cls, [])
+        base = len(lines)
+        shadow, steps = [], []
+        budget = 36 if cls in ('TCP', 'IP') else 100000
+        phases = rng.choice([1, 1, 2])
+        for ph in range(phases):
+            for _ in range(rng.randrange(1, 9) if ph == 0 else rng.randrange(1, 4)):
+                r = rng.random()
+                code = rng.choice(codes)
+                if ph == 1 and shadow and r < 0.5:
+                    # replace an option by another one of the same encoded size
+                    oc, od = rng.choice(shadow)
+                    idx = next(j for j, (c, _) in enumerate(shadow) if c == oc)
+                    oc, od = shadow[idx]
+                    lines.append('ropt 0 %d' % oc)
+                    shadow.pop(idx)
+                    steps.append(('r', list(shadow), 1))
+                    nc = rng.choice([c for c in codes if (c in pad) == (oc in pad)] or [oc])
+                    data = bytes(rng.randrange(256) for _ in range(len(od)))
+                    lines.append('aopt 0 %d x%s' % (nc, data.hex()))
+                    shadow.append((nc, data))
+                    steps.append(('a', list(shadow), None))
+                elif r < 0.55 or not shadow:
+                    ln = 0 if code in pad else rng.choice(lens)
+                    if sum(len(d) + 2 for _, d in shadow) + ln + 2 > budget:
+                        continue
+                    data = bytes(rng.randrange(256) for _ in range(ln))
+                    lines.append('aopt 0 %d x%s' % (code, data.hex()))
+                    shadow.append((code, data))
+                    steps.append(('a', list(shadow), None))
+                elif r < 0.8:
+                    code = rng.choice([c for c, _ in shadow] + [code])
+                    idx = next((j for j, (c, _) in enumerate(shadow) if c == code), None)
+                    lines.append('ropt 0 %d' % code)
+                    if idx is not None:
+                        shadow.pop(idx)
+                    steps.append(('r', list(shadow), 1 if idx is not None else 0))
+                else:
+                    code = rng.choice([c for c, _ in shadow] + [code])
+                    hit = next((d for c, d in shadow if c == code), None)
+                    lines.append('sopt 0 %d' % code)
+                    steps.append(('s', list(shadow), hit))
+            if ph + 1 < phases:
+                lines.append('ser')
+                steps.append(('S', list(shadow), None))
+        lines += ['ser', 'rt ' + cls]
+        sid = 'o%d' % i
+        hscripts.append((sid, lines))
+        hmeta[sid] = (cls, base, steps, pad)
+    return hscripts, hmeta
+
+
 def run(ctx):
     st, acc = PC.prepare(ctx, ('gen_accessors',))
     ctx.cov['trusted_base'] += ['translate/gen_accessors.py (getter view / setter table regenerated from the headers); harness/h_pkt.cpp',
@@ -149,6 +210,7 @@ def run(ctx):
     rng = ctx.rng
     quick = ctx.tier == 'quick'
     PC.tcp_option_correspondence(ctx, rng, 500 if quick else 8000, runner_ok)
+    PC.tlv_correspondence(ctx, rng, 600 if quick else 10000, runner_ok)
     scripts, stacks = [], {}
     for i in range(1500 if quick else 25000):
         lines, meta = G.build(rng, i)
@@ -210,41 +272,7 @@ def run(ctx):
     ctx.notes['typed_failure_kinds'] = tkinds
     ctx.notes['typed_setters_never_accepting_a_generated_value'] = sorted('%s.%s' % k for k in tried if not accepted.get(k))
     # ---- option histories: add / remove-first / search-first against a shadow list, then through the wire ----
-    hscripts, hmeta = [], {}
-    for i in range(600 if quick else 12000):
-        cls = rng.choice(sorted(OPT_POOLS))
-        codes, lens, pad = OPT_POOLS[cls]
-        lines = ['new ' + cls] + PREP.get(cls, [])
-        base = len(lines)
-        shadow, steps = [], []
-        budget = 36 if cls in ('TCP', 'IP') else 100000
-        for _ in range(rng.randrange(1, 9)):
-            r = rng.random()
-            code = rng.choice(codes)
-            if r < 0.55 or not shadow:
-                ln = rng.choice(lens)
-                if sum(len(d) + 2 for _, d in shadow) + ln + 2 > budget:
-                    continue
-                data = bytes(rng.randrange(256) for _ in range(ln))
-                lines.append('aopt 0 %d x%s' % (code, data.hex()))
-                shadow.append((code, data))
-                steps.append(('a', list(shadow), None))
-            elif r < 0.8:
-                code = rng.choice([c for c, _ in shadow] + [code])
-                idx = next((j for j, (c, _) in enumerate(shadow) if c == code), None)
-                lines.append('ropt 0 %d' % code)
-                if idx is not None:
-                    shadow.pop(idx)
-                steps.append(('r', list(shadow), 1 if idx is not None else 0))
-            else:
-                code = rng.choice([c for c, _ in shadow] + [code])
-                hit = next((d for c, d in shadow if c == code), None)
-                lines.append('sopt 0 %d' % code)
-                steps.append(('s', list(shadow), hit))
-        lines += ['ser', 'rt ' + cls]
-        sid = 'o%d' % i
-        hscripts.append((sid, lines))
-        hmeta[sid] = (cls, base, steps, pad)
+    hscripts, hmeta = option_histories(rng, 600 if quick else 12000)
     hh = C.run_harness('h_pkt', hscripts)
     ctx.cov['evaluations'] += len(hscripts)
     optre = re.compile(r'\((\d+),(\d+),x([0-9a-f]*)\)')
@@ -262,6 +290,11 @@ def run(ctx):
         else:
             for j, (kind, sh, res) in enumerate(steps):
                 l = lh[base + j] if base + j < len(lh) else '<missing>'
+                if kind == 'S':
+                    if not l.startswith('S '):
+                        bad = '%s: serialize after %s fails: %s' % (cls, lines[base:base + j][-3:], l[:60])
+                        break
+                    continue
                 if kind == 's':
                     want = 'O 1 x' + res.hex() if res is not None else 'O 0'
                     if l.strip() != want:
@@ -295,6 +328,78 @@ def run(ctx):
                 continue
             seen.add(kshort)
             ctx.violation(bad[:400], '=== replay\n' + '\n'.join(lines) + '\n--- ' + bad + '\n--- C++ output\n' + '\n'.join(l[:400] for l in lh) + '\n')
+    # ---- list-valued members with their own add / remove-first API (RTP CSRC identifiers, extension words): histories with
+    #      repeated values against a shadow list, then through the wire in front of a payload ----
+    ls = []
+    for i in range(300 if quick else 6000):
+        shadow = {'csrc': [], 'ext': []}
+        lines, steps = ['new RTP'], []
+        pool = rng.choice([[1, 2, 3], [7, 7, 9, 0xdeadbeef], [0, 1, 0xffffffff]])
+        for _ in range(rng.randrange(1, 12)):
+            which = rng.choice(['csrc', 'ext'])
+            v = rng.choice(pool)
+            if rng.random() < 0.6 or not shadow[which]:
+                if which == 'csrc' and len(shadow[which]) >= 15:
+                    continue
+                lines.append('ladd 0 %s %d' % (which, v)); shadow[which].append(v); steps.append((1, list(shadow['csrc']), list(shadow['ext'])))
+            else:
+                v = rng.choice(shadow[which] + [v])
+                r = 1 if v in shadow[which] else 0
+                if r:
+                    shadow[which].remove(v)
+                lines.append('lrem 0 %s %d' % (which, v)); steps.append((r, list(shadow['csrc']), list(shadow['ext'])))
+        pl = bytes(rng.randrange(256) for _ in range(rng.choice([4, 8, 13])))
+        lines += ['raw x' + pl.hex(), 'ser', 'rt RTP']
+        ls.append(('l%d' % i, lines, steps, pl))
+    lhh = C.run_harness('h_pkt', [(a_, b_) for a_, b_, _, _ in ls])
+    ctx.cov['evaluations'] += len(ls)
+
+    def lists_of(view_line):
+        first = view_line.split(' | ')[0]
+        out = []
+        for nm in ('csrc_ids', 'extension_data'):
+            m = re.search(r' %s=\{([^}]*)\}' % nm, first)
+            if not m:
+                return None
+            # the accessors hand out the stored words, which are in network byte order (the unit tests pin this): swapped back here
+            out.append([struct.unpack('<I', struct.pack('>I', int(x)))[0] for x in m.group(1).split(';') if x != ''])
+        return out
+    for sid, lines, steps, pl in ls:
+        lh = [l for l in lhh.get(sid, []) if not l.startswith('!~')]
+        bad = None
+        if any(l.startswith('!!') for l in lh):
+            bad = 'RTP list history: %s' % [l for l in lh if l.startswith('!!')][0]
+        else:
+            for j, (r, cs, ex) in enumerate(steps):
+                l = lh[1 + j] if 1 + j < len(lh) else '<missing>'
+                t = l.split(' ', 2)
+                if t[0] != 'P' or len(t) < 3:
+                    bad = 'RTP: "%s" fails: %s' % (lines[1 + j], l[:60]); break
+                if t[1] != str(r):
+                    bad = 'RTP: "%s" after %s returned %s, expected %d' % (lines[1 + j], lines[1:1 + j], t[1], r); break
+                got = lists_of('P ' + t[2])
+                if got != [cs, ex]:
+                    bad = 'RTP: after %s the CSRC ids / extension words are %s, expected %s' % (lines[1:2 + j], got, [cs, ex]); break
+                if ' csrc_count=%d ' % len(cs) not in t[2] or ' extension_length=%d ' % len(ex) not in t[2]:
+                    bad = 'RTP: after %s csrc_count / extension_length disagree with the %d CSRC ids and %d extension words held' % (lines[1:2 + j], len(cs), len(ex)); break
+            else:
+                n = 1 + len(steps) + 1
+                if len(lh) > n + 1 and lh[n].startswith('S ') and lh[n + 1].startswith('Q '):
+                    back = lists_of(lh[n + 1])
+                    final = [steps[-1][1], steps[-1][2]]
+                    if back != final:
+                        bad = 'RTP: CSRC ids / extension words %s come back from the wire as %s (history %s)' % (final, back, lines[1:-3])
+                    elif ('payload=x' + pl.hex()) not in lh[n + 1]:
+                        bad = 'RTP: after the history %s the payload does not come back from the wire: %s' % (lines[1:-3], lh[n + 1][-80:])
+                    else:
+                        nontriv.add(tuple(lines))
+                else:
+                    bad = 'RTP: serialize/re-parse after a list history fails: %s' % [x[:40] for x in lh[n:n + 2]]
+        if bad:
+            kshort = re.sub(r'x[0-9a-f]+|\d+', 'N', bad)[:40]
+            if kshort not in seen:
+                seen.add(kshort)
+                ctx.violation(bad[:400], '=== replay\n' + '\n'.join(lines) + '\n--- ' + bad + '\n--- C++ output\n' + '\n'.join(l[:400] for l in lh) + '\n')
     # ---- IPv6 extension headers added through the API, every data length 0..24, in front of UDP ----
     xs = []
     for n in range(0, 25):
